@@ -20,7 +20,7 @@ pub fn interval_alphabet(seed: u64) -> Vec<i64> {
     }
     for k in 0..8u64 {
         let r = splitmix(seed ^ (0xC12 + k)) % (2 * limit as u64 + 1);
-        v.push(r as i64 - limit);
+        v.push((r as i128 - limit as i128) as i64);
     }
     v.sort();
     v.dedup();
